@@ -38,7 +38,12 @@ def families(tier):
       ('k3d1', 3, 1, ['grp', 'sub', 'c'], [{'ret': ['ok']}, {'ret': ['fail_subtest']}, {'ret': ['stop']}], CKPT_SMALL, BR_SMALL),
       ('k3d2sub', 3, 2, ['c', 'sub'], L3, CKPT_SMALL, BR_SMALL),
   ]
+  # teardown contents (checkpoints / branches nested in the teardown of a group), inside and outside a subtest that the
+  # group's main (or an earlier node) may already have failed
+  LT = [{'ret': ['ok']}, {'ret': ['fail_subtest']}, {'ret': ['ok'], 'diag': ['A']}, {'ret': ['stop']}]
+  fam.append(('td2', 2, 1, 'teardown-templates', LT, CKPT_SMALL, BR_SMALL))
   if tier == 'thorough':
+    fam.append(('td3', 3, 1, 'teardown-templates', LT, CKPT_SMALL, BR_SMALL))
     fam += [
         ('k2d2full', 2, 2, allk, LEAVES_FULL, CKPT_FULL, BR_FULL),
         ('k3d1full', 3, 1, allk, LEAVES_FULL, CKPT_SMALL, BR_FULL),
@@ -49,6 +54,27 @@ def families(tier):
         ('k4d2sub', 4, 2, ['c', 'sub'], [{'ret': ['ok']}, {'ret': ['fail']}], [('subtest', 'fs'), ('last', 'stop')], BR_SMALL),
     ]
   return fam
+
+
+def shape_iter(k, depth, kinds):
+  if kinds != 'teardown-templates':
+    return progs.shapes(k, depth, kinds)
+  return teardown_templates(k, depth)
+
+
+def teardown_templates(k, depth):
+  """[pre] group(main: one leaf, teardown: T) [post], bare and wrapped in a subtest; T over all teardown-legal node lists
+  with 1..k leaf slots (phases, checkpoints, branches nested up to `depth`)."""
+  for n in range(1, k + 1):
+    for t in progs.shapes(n, depth, ['c', 'br'], True, False):
+      if all(x[0] == 'p' for x in t):
+        continue      # plain phase teardowns are covered by the generic families
+      grp = ['grp', [], [['p', None]], t]
+      yield [grp]
+      yield [grp, ['p', None]]
+      yield [['sub', [grp]]]
+      yield [['sub', [['p', None], grp]]]
+      yield [['sub', [grp, ['p', None]]], ['p', None]]
 
 
 def strip_calls(calls):
@@ -100,7 +126,7 @@ def _work(item):
   viols = []
   outcomes = set()
   sample = None
-  for i, shape in enumerate(progs.shapes(k, depth, kinds)):
+  for i, shape in enumerate(shape_iter(k, depth, kinds)):
     if i % step != start:
       continue
     for spec in progs.fill(shape, leaves, ckpts, brs):
